@@ -196,7 +196,7 @@ class Policy(object):
 
 class _State(object):
     __slots__ = ('n', 'budget', 'abort_at', 'policy', 'replay', 'strict', 'events', 'edge_list',
-                 'last_randint', 'last_perm', 'forced', 'opaque', 'diverged', 'sites', 'keep', 'inside')
+                 'last_randint', 'last_perm', 'forced', 'opaque', 'diverged', 'sites', 'keep', 'inside', 'last_forced')
 
 
 class SimRNG(np.random.RandomState):
@@ -227,6 +227,7 @@ class SimRNG(np.random.RandomState):
         st.diverged = 0
         st.sites = {}
         st.keep = True
+        st.last_forced = -1
         st.inside = False  # True while a base-class method runs (it may call other methods via self)
         self._st = st
 
@@ -259,6 +260,11 @@ class SimRNG(np.random.RandomState):
 
     def trace(self):
         return [[m, a, list(s) if s is not None else None, _jsonable(v)] for (m, a, s, site, v) in self._st.events]
+
+    def tail_draws(self):
+        """number of draws made after the last forced one (None if nothing was forced): bounded-progress measure"""
+        st = self._st
+        return None if st.last_forced < 0 else st.n - st.last_forced - 1
 
     def site_counts(self):
         return dict(self._st.sites)
@@ -294,6 +300,7 @@ class SimRNG(np.random.RandomState):
             if f is not None:
                 v = cast(f)
                 st.forced += 1
+                st.last_forced = seq
         if v is None:
             st.inside = True
             try:
